@@ -1,11 +1,28 @@
 #!/bin/bash
-# Re-evaluates every seeded change under /tmp/seed/out (or the directory given) with the current checks.
-src=${1:-/tmp/seed/out}
-for id in $(ls $src); do for x in A B; do
-  [ -f $src/$id/$x/patch.diff ] || continue
-  extra=""
-  case $id-$x in C02-A) extra="--checks C02,C03,C17";; C02-B) extra="--checks C02";; C03-B) extra="--checks C03,C17";; C06-A|C06-B|C17-A) extra="--checks C06,C17";; esac
-  timeout 3000 ./seed_eval.py $src/$id/$x $id-$x $extra > /tmp/seed/eval_$id$x.json 2>/tmp/seed/eval_$id$x.err
-  python3 -c "
-import json; r=json.load(open('/tmp/seed/eval_$id$x.json')); print('$id-$x', 'confirmed=',r.get('confirmed'), {k:(v['detected'],v['exit'],v['wall_s']) for k,v in r['verdicts'].items()})"
-done; done
+# Re-evaluates every seeded change kept under seeded/ with the current checks (round 1: A/B, round 2: C/D).
+#   ./seed_all.sh [/tmp/seed/out /tmp/seed2/out]   (sources default to seeded/<id>/ itself)
+extra_for() { case $1 in C02-A) echo "--checks C02,C03,C17";; C03-B) echo "--checks C03,C17";; C06-A|C06-B|C17-A) echo "--checks C06,C17";; C02-C) echo "--checks C02,C16";; C02-D) echo "--checks C02,C03";; C11-C) echo "--checks C11,C12";; esac; }
+for d in $(ls -d seeded/*/); do
+  sid=$(basename $d)
+  src=/var/tmp/vf-seedsrc/$sid; rm -rf $src; mkdir -p $src
+  cp $d/patch.diff $d/meta.json $src/
+  for f in $d/*_test.go.txt; do [ -f "$f" ] && cp "$f" $src/$(basename ${f%.txt}); done
+  [ -d $d/demo ] && cp -r $d/demo $src/demo
+  python3 - $src/meta.json <<'PY'
+import json,sys
+m=json.load(open(sys.argv[1])); m.pop('verdicts',None); m.pop('ran',None); json.dump(m,open(sys.argv[1],'w'))
+PY
+  hist=$(python3 -c "import json;print(json.load(open('$d/meta.json')).get('history',''))")
+  timeout 3000 ./seed_eval.py $src $sid $(extra_for $sid) > /var/tmp/vf-seedsrc/$sid.json 2>/var/tmp/vf-seedsrc/$sid.err
+  python3 - "$sid" "$hist" <<'PY'
+import json,sys
+sid,hist=sys.argv[1],sys.argv[2]
+r=json.load(open('/var/tmp/vf-seedsrc/%s.json'%sid))
+print(sid,'confirmed=',r.get('confirmed'),{k:(v['detected'],v['exit'],v['wall_s']) for k,v in r['verdicts'].items()}, (r.get('why') or '')[:160])
+p='/verif/seeded/%s/meta.json'%sid
+try:
+    m=json.load(open(p))
+    if hist and 'history' not in m: m['history']=hist; json.dump(m,open(p,'w'),indent=1)
+except Exception as e: print('meta',e)
+PY
+done
